@@ -36,7 +36,7 @@ func (*c10) Rule() string {
 func (*c10) Assumptions() []string {
 	return []string{
 		"falsiness and conversion expectations are an independent table written from docs/runtime-types.md and docs/builtins.md",
-		"for types whose == is identity by design (error, functions) copy is compared by payload, not by ==",
+		"for types whose == is identity (error) or never true (functions) the generic copy law compares payloads; the literal claim 'copy(x) == x' is probed on four exact inputs, which are listed as known findings",
 		"float to int conversions outside the int64 range and of NaN are platform dependent and not judged",
 	}
 }
@@ -357,9 +357,35 @@ func orderedKind(k string) bool {
 	return k == "int" || k == "char" || k == "string" || k == "time" || k == "float"
 }
 
+// values whose == is identity (errors) or never true (functions): "copy yields an equal value" as the
+// property states it does not hold for them on the pinned tree; exact inputs, listed as known findings
+var c10CopyEqProbes = []struct{ name, src string }{
+	{"error", `e := error("x"); c := copy(e); r := c == e; n := c != e`},
+	{"error-in-array", `e := [1, error("x")]; c := copy(e); r := c == e; n := c != e`},
+	{"compiled-function", `f := func() { return 1 }; c := copy(f); r := c == f; n := c != f`},
+	{"builtin-function", `c := copy(len); r := c == len; n := c != len`},
+}
+
+func (c *c10) copyEqProbes(r *fw.Rec) {
+	for _, p := range c10CopyEqProbes {
+		eng := runEngine([]byte(p.src), engineOpts{Budget: 100_000})
+		r.Eval()
+		r.Inc("copy-equality-probes")
+		r.Distinct("copy-eq-probe", p.name)
+		if eng.Phase == "ok" && eng.Globals["r"] == "true" && eng.Globals["n"] == "false" {
+			continue
+		}
+		r.Violate("copy:not-equal:"+p.name, "copy() of this value is not equal (==) to the original",
+			map[string]interface{}{"script": p.src, "outcome": eng.Phase + ": " + eng.Err, "r (copy == original)": eng.Globals["r"], "n (copy != original)": eng.Globals["n"]})
+	}
+}
+
 func (c *c10) RunCase(r *fw.Rec, cs fw.Case) {
 	if c10PoolCache == nil {
 		c10PoolCache = c10Pool()
+	}
+	if cs.Index == 0 {
+		c.copyEqProbes(r)
 	}
 	rng := cs.Rng("c10")
 	pool := c10PoolCache
